@@ -19,6 +19,8 @@ Theorem C11_reservation_iff_surviving_assignments : forall a s x ports k,
      sharing_ok (a_key (snd e)) k = true /\ forall p, In p ports -> ~ In p (a_ports (snd e))).
 Proof. exact check_sharing_iff. Qed.
 
+(* by definition of [counters_for] (available := capacity - assigned); the content is in
+   C11_counters_from_maps, C11_capacity_saturating, C11_poolcount_formula, C11_counters_nonneg *)
 Theorem C11_counters_sum : forall a n p,
   find_pool (s_pools a) n = Some p ->
   c_assigned4 (counters_for a n) + c_avail4 (counters_for a n) = pool_capacity p F4 /\
@@ -73,6 +75,16 @@ Theorem C11_assigned_le_capacity : forall a n p f m,
   exact_sum (p_avoid p) f (p_cidrs p) = Some m ->
   assigned a n f <= m.
 Proof. exact assigned_le_capacity. Qed.
+
+(* "no reported count is ever negative": for every reachable allocator state the four
+   reported numbers are >= 0 (the bound on assigned only matters in the saturated case) *)
+Theorem C11_counters_nonneg : forall a n p,
+  Inv a -> PoolCoh a -> NoDup (map p_name (by_name (s_pools a))) ->
+  find_pool (s_pools a) n = Some p -> wf_pool_lens p ->
+  assigned a n F4 <= max_i64 -> assigned a n F6 <= max_i64 ->
+  let c := counters_for a n in
+  0 <= c_assigned4 c /\ 0 <= c_assigned6 c /\ 0 <= c_avail4 c /\ 0 <= c_avail6 c.
+Proof. exact counters_nonneg. Qed.
 
 (* ==== allocmaps: the derived maps of the Go allocator as a refinement ====
    (section appended by the allocmaps builder; proofs in Proofs/AllocMaps*.v)
